@@ -146,7 +146,11 @@ func Eval(ctx context.Context, c Case) (res Result) {
 	}
 	desired := &schema.Realm{}
 	if err := sqlite.EvalHCLBytes([]byte(hcl), desired, nil); err != nil {
-		bad("harness: desired HCL rejected: %v\n%s", err, hcl)
+		if c.Exported {
+			bad("the desired state, written by atlas' own HCL export of database B, is rejected: %v\n%s", err, hcl)
+		} else {
+			bad("harness: desired HCL rejected: %v\n%s", err, hcl)
+		}
 		return
 	}
 	changes, err := e.Atlas.RealmDiff(cur, desired, schema.DiffNormalized())
